@@ -102,8 +102,23 @@ def _small_cases(ch):
             yield {'tree': j, 'model': spec}
 
 
+def _deep_chunks(tier):
+    return [{'d': d, 'v': v} for d in (60, 101, 130, 199) for v in range(4)] + [{'huge': n, 'shape': sh} for n in (90, 300) for sh in ('star', 'comb', 'binary')]
+
+
+def _deep_cases(ch):
+    if 'huge' in ch:
+        if ch['shape'] == 'comb' and ch['huge'] > 300:
+            return
+        j = trees.huge_tree(ch['huge'], ch['shape'])
+    else:
+        j = trees.deep_chain(ch['d'], ch['v'])
+    yield {'tree': j, 'model': {'name': 'default'}, 'opts': [[-1, False], [None, True]]}
+
+
 def stages(tier):
     return [
+        Enum('deep-and-huge', _deep_chunks, _deep_cases, 'chains nested 60 / 101 / 130 / 199 levels with re-entrancies to ancestors after the nested branch (4 variants); stars, combs and binary trees of about 90 and 300 nodes'),
         Enum('small-trees', _small_chunks, _small_cases,
              'every tree with <= 3 (quick) / 4 (thorough) non-concept branches over vars {a,b,c}, roles {:r,:r-of,:s}, atom k; '
              'concept in {absent,x,"/"} (<=3) or {absent,x} (4); x {default, noop}; ill-formed ones are skipped and counted'),
